@@ -8,7 +8,8 @@
      packet's marker bit and payload (Section variables);
    - index loops whose body does work (the scan of buildSample, the merge
      loop, the purge loop) run on explicit binary fuel (iter_pos) and raise
-     fault 1 when it runs out; Go nil dereferences raise fault 2.  The three
+     fault 1 when it runs out; Go nil dereferences raise fault 2; fault 3 marks a
+     sample built although fetchTimestamp(active) had no data (behaviour unchanged).  The three
      "find the first / last non-nil slot in a range" loops (tooOld, the
      afterTimestamp scan) are written as a search over the finite map for the
      key with the least / greatest offset, which is what those loops compute;
@@ -125,7 +126,7 @@ Record st := mkSt {
   released : list packet;  (* ghost log of the release handler, newest first *)
   built : list sample;     (* ghost log of every sample built, newest first *)
   evlog : list ev;         (* ghost, newest first *)
-  fault : N                (* 0 none, 1 out of fuel, 2 nil dereference *)
+  fault : N                (* 0 none, 1 out of fuel, 2 nil dereference, 3 sample built over an empty active window *)
 }.
 
 Definition st0 : st :=
@@ -267,11 +268,15 @@ Section Builder.
         else if negb purging && (match bget (l_tail consume) (buf s2) with None => true | Some _ => false end)
         then (s2, None)
         else
+          (* sampleTimestamp, _ := s.fetchTimestamp(s.active).  hasData is false only when
+             extending active.tail emptied the window; the Go code carries on with timestamp 0
+             and so does the model, but it flags the history (fault 3) *)
           let sampleTs := fst (fetchTimestamp s2 (active s2)) in
+          let s2r := if snd (fetchTimestamp s2 (active s2)) then s2 else raise s2 3 in
           let afterTs := match first_in_range (buf s2) (l_tail consume) (l_tail (active s2)) with
                          | Some p => p_ts p | None => sampleTs end in
           (* the head set of packets is now fully consumed: active.head = consume.tail *)
-          let s3 := set_active s2 (mkLoc (l_tail consume) (l_tail (active s2))) in
+          let s3 := set_active s2r (mkLoc (l_tail consume) (l_tail (active s2))) in
           let mv := fun k => EvMove k (l_head consume) (l_tail consume) in
           let col := collect s2 consume in
           if snd col then (raise (log_ev s3 (mv 2)) 1, None)
